@@ -45,14 +45,17 @@ CHECKS = {
              "directly behind x) and one store into x - or into one element of x: [2]T - in each "
              "way the language offers: copy of a variable, literal / conversion (variant -> enum, "
              "payload -> optional, nil, payload / error -> error union), payload or variant "
-             "variable, argument + return by value, through ^mut, struct cast, array element 0 / "
-             "1, a local between guard locals. Sizes, offsets, strides and tag positions are "
+             "variable, argument + return by value, through ^mut, struct cast (structural twin; "
+             "member-wise converting from wider members in another order; same members in the "
+             "reverse order), array element 0 / 1, a local between guard locals, S built by a "
+             "literal in reverse member order, compound assignment with a same-width / wider "
+             "right-hand side. Sizes, offsets, strides and tag positions are "
              "Layout.tla's (validated against the code generator by C17). The frame condition "
              "(no byte outside the target changes) is an action property checked by TLC on every "
              "behaviour; each behaviour's final image (defined bytes of the new value inside the "
              "target, -1 = padding / inactive payload = unconstrained, everything else as before) "
              "is replayed: the real program builds S, performs the store, dumps S's bytes.",
-        note="quick: 28 value types + all-bytes structs of 18 sizes in 1..64 (716 behaviours); "
+        note="quick: 33 value types + all-bytes structs of 18 sizes in 1..64 (1944 behaviours); "
              "thorough: every size 1..64. No pointers / strings inside the stored types (their "
              "bytes are not known to the spec). Trusted: TLC, Layout.tla's layout operators "
              "(C17), the renderer in tools/props/c02.py, gcc as linker.",
